@@ -27,8 +27,9 @@ def run(ctx):
             w = where_of(s)
             rep.ob('R14.0', '%s summary complete' % which, s.complete and bool(s.ok_paths), str(s.notes), w, sn)
             for p in s.ok_paths:
-                ev = fields(fields(p.payload).get('message')).get('evaluation_element')
-                n_eval += int(check_eval(rep, 'R14.1', API[which][0].split('::<')[0].split('::')[-1] + '::start', ev, sn, w, P['Nok']))
+                ev = msg_eval(fields(p.payload).get('message'))
+                n_eval += int(check_eval(rep, 'R14.1', API[which][0].split('::<')[0].split('::')[-1] + '::start', ev, sn, w, P['Nok'],
+                                         role_term(ctx, sn, s, 2 if which == 'sreg_start' else 4, Sym('request'), 'blinded')))
                 keys = find_apps(ev, 'DeriveKey')
                 good = bool(keys) and contains(keys[0], Sym('cred_id')) and any(
                     is_whole_field_of(x, Sym('setup')) for x in subterms(keys[0], lambda t: t[0] == 'fld'))
@@ -60,13 +61,14 @@ def run(ctx):
                 rep.ob('R14.3', '%s: nothing in the request other than the blinded element depends on the password' % which,
                        not mentions(stripped, Sym('password')), show(stripped)[:300], w, sn)
                 # state stored in the message copy equals the element kept in the state
-        for which in ('creg_finish', 'clog_finish'):
+        for which, ridx in (('creg_finish', 4), ('clog_finish', 3)):
             s = api_summary(ctx, sn, which)
             w = where_of(s)
+            ev_term = role_term(ctx, sn, s, ridx, Sym('response'), 'eval')
             for p in s.ok_paths:
                 a = an.client_finish(p)
                 good = 'o' in a and a['oprf_input'] == Sym('password') and is_whole_field_of(a['oprf_state'], Sym('self')) and a['oprf_state'][0] == 'fld' \
-                    and a['oprf_eval'] == ('fld', Sym('response'), 'evaluation_element') and len(a['finalize_calls']) == 1
+                    and ev_term is not None and a['oprf_eval'] == ev_term and len(a['finalize_calls']) == 1
                 rep.ob('R14.4', '%s: finalize(stored blind state, password, response element), once' % which, good, show(a.get('o')), w, sn)
     ns = len(ctx.suite_names)
     rep.floor('R14.1', 'evaluation terms', n_eval, ns * (1 + 8))
